@@ -122,6 +122,12 @@ def run_case(seed):
             if rng.random() < 0.15:
                 d[(0,) * len(shape)] = rng.choice([np.inf, -np.inf, 1e300, -1e-300])
             lev.data.append(d)
+    has_nan = False
+    if rng.random() < 0.2:
+        lv_nan = rng.randrange(pf.nlevels)
+        b_nan = rng.randrange(len(pf.levels[lv_nan].boxes))
+        pf.levels[lv_nan].data[b_nan][(0,) * (ndims + 1)] = np.nan
+        has_nan = True
     root = core.scratch_dir(f"c18_{seed}")
     os.makedirs(root)
     path = os.path.join(root, 'plt00010')
@@ -131,6 +137,7 @@ def run_case(seed):
     count(f"nfields={'odd' if len(keys) % 2 else 'even'}")
     count(f"species={'yes' if any(classify(k) == 'Y' for k in keys) else 'no'}")
     count(f"unknown_fields={sum(1 for k in keys if classify(k) is None)}")
+    count(f"nan_in_tables={has_nan}")
     desc = dict(seed=seed, fields=keys, time=repr(pf.time), meta=pf.meta)
     # expected tables from the generator's data (the per-box header tables hold '%.16e' of the extrema)
     mins = [[[float(gen.minmax_token(np.min(d[..., c]))) for d in lev.data] for lev in pf.levels] for c in range(len(keys))]
@@ -194,7 +201,7 @@ def run_case(seed):
             c = keys.index(name)
             vals_min = mins[c][-1] if finest else [v for lv in mins[c] for v in lv]
             vals_max = maxs[c][-1] if finest else [v for lv in maxs[c] for v in lv]
-            wmn, wmx = fmt3(min(vals_min)).strip(), fmt3(max(vals_max)).strip()
+            wmn, wmx = fmt3(np.min(vals_min)).strip(), fmt3(np.max(vals_max)).strip()      # NaN propagates
             if (mn, mx) != (wmn, wmx):
                 bad = f"menu {flag}: field {name!r} shows ({mn}, {mx}) instead of ({wmn}, {wmx}) = extrema of the per-box tables of " + \
                       ('the finest level' if finest else 'all levels') + ' to three significant digits'
@@ -235,7 +242,10 @@ def run_case(seed):
                 viol('marinate-differs', 'marinated reader: ' + bad)
         except Exception as e:
             viol('marinate-unusable', f"the pickle cannot be used: {type(e).__name__}: {e}")
-    # ---- the model
+    # ---- the model (value order on bit patterns: no NaN)
+    if has_nan:
+        out['keys'].append(core.khash(seed))
+        return out
     classes = [opt(classify(k).encode() if classify(k) else None) for k in keys]
     for finest in (False, True):
         st, m = model.call('menu', [[k.encode() for k in keys], classes, 1 if finest else 0,
@@ -268,6 +278,55 @@ def run_case(seed):
     return out
 
 
+def huge_offset_case():
+    """a binary file larger than 2 GiB (sparse): the marinated reader must keep the 64-bit offsets"""
+    from amr_kitchen import PlotfileCooker
+    out = dict(evals=1, keys=['huge'], dist={'huge_offset_case': 1}, samples=[], violations=[], disagreements=[])
+    root = core.scratch_dir('c18_huge')
+    os.makedirs(root)
+    path = os.path.join(root, 'plt_big')
+    pf = gen.PF()
+    pf.ndims, pf.fields, pf.time, pf.geo_low, pf.dx0, pf.n0 = 3, ['temp'], 0.5, [0.0, 0.0, 0.0], [1.0, 1.0, 1.0], [65536 + 4, 64, 64]
+    lev = gen.Level()
+    lev.boxes = [((0, 0, 0), (65535, 63, 63)), ((65536, 0, 0), (65539, 63, 63))]
+    small = np.asfortranarray(np.arange(4 * 64 * 64, dtype='float64').reshape((4, 64, 64, 1), order='F'))
+    pf.levels = [lev]
+    os.makedirs(os.path.join(path, 'Level_0'))
+    h0 = gen.fab_header(*lev.boxes[0], 1)
+    off1 = len(h0) + 8 * 65536 * 64 * 64
+    with open(os.path.join(path, 'Level_0', 'Cell_D_00000'), 'wb') as f:
+        f.write(h0)
+        f.seek(off1)
+        f.write(gen.fab_bytes(*lev.boxes[1], small))
+    lev.data = [np.zeros((1, 1, 1, 1)), small]
+    with open(os.path.join(path, 'Header'), 'w') as f:
+        f.write(gen.header_text(pf))
+    zero = gen.minmax_token(0.0)
+    with open(os.path.join(path, 'Level_0', 'Cell_H'), 'w') as f:
+        f.write(gen.cell_h_text(pf, 0, [('Cell_D_00000', 0), ('Cell_D_00000', off1)],
+                                mins=[[zero], [gen.minmax_token(0.0)]], maxs=[[zero], [gen.minmax_token(float(small.max()))]]))
+    res = core.outcome(lambda: run_entry('amr_kitchen.marinate', ['marinate', path]))
+    desc = dict(case='binary file of 2 GiB + (sparse), second box at offset %d' % off1)
+    if res[0] != 'ok':
+        out['violations'].append(dict(desc, kind='marinate-raised', what='marinate raised: ' + res[1]))
+        return out
+    with open(path + '.pkl', 'rb') as f:
+        pk = pickle.load(f)
+    if [int(o) for o in pk.cells[0]['offsets']] != [0, off1]:
+        out['violations'].append(dict(desc, kind='marinate-differs',
+                                      what=f"marinated reader: offsets {list(pk.cells[0]['offsets'])} instead of {[0, off1]}"))
+        return out
+    got = core.outcome(lambda: np.asarray(pk['temp'][0][1]))
+    if got[0] != 'ok' or got[1].tobytes(order='F') != small[..., 0].tobytes(order='F'):
+        out['violations'].append(dict(desc, kind='marinate-differs',
+                                      what='marinated reader: box 1 (behind 2 GiB) does not read back: ' + str(got[1])[:120]))
+    return out
+
+
+def lambda_huge(_):
+    return huge_offset_case()
+
+
 def run(tier, seed):
     rep = core.Report(PID, tier, seed)
     pg = core.proof_gate(PID, thorough=(tier == 'thorough'))
@@ -279,6 +338,8 @@ def run(tier, seed):
     ncases = 60 if tier == 'quick' else 800
     cases = [seed * 100000 + 18000 + i for i in range(ncases)]
     for r in core.run_cases(run_case, cases):
+        rep.merge(r)
+    for r in core.run_cases(lambda_huge, [0]):
         rep.merge(r)
     rep.obligation('correspondence: Menu.Menu (listing, species, extrema, table rows, minuterie) = parsed standard output of the entry points',
                    not any(v[0].get('kind') == 'model-vs-impl' for v in rep.violations))
